@@ -63,6 +63,7 @@ package pongo2
 //@ writers {C03} F|TemplateSet|bannedFilters NewSet
 //@ type TemplateSet
 //@   invariant {C03} self.bannedTags != self.bannedFilters
+//@   invariant {C01,C11,C20} len(self.loaders) > 0
 
 //@ func (*TemplateSet).BanTag
 //@   ensures {C03} @refuse (r0 != nil) <==> old(!has(tags, name) || set.firstTemplateCreated || has(set.bannedTags, name))
@@ -142,14 +143,12 @@ package pongo2
 
 // ---- template cache, sequential specification (C20) ----
 //@ func (*TemplateSet).FromCache
-//@   requires len(set.loaders) > 0
 //@   ensures {C20} @same-map-object set.templateCache == old(set.templateCache)
 //@   ensures {C20} @debug-bypasses-cache old(set.Debug) ==> (mapdom(set.templateCache) == old(mapdom(set.templateCache)) && mapvals(set.templateCache) == old(mapvals(set.templateCache)))
 //@   ensures {C20} @error-caches-nothing r1 != nil ==> (mapdom(set.templateCache) == old(mapdom(set.templateCache)) && mapvals(set.templateCache) == old(mapvals(set.templateCache)))
 //@   ensures {C20} @hit-returns-cached (!old(set.Debug) && old(has(set.templateCache, LoaderAbs(set.loaders[0], "", filename)))) ==> (r1 == nil && r0 == old(set.templateCache[LoaderAbs(set.loaders[0], "", filename)]) && mapdom(set.templateCache) == old(mapdom(set.templateCache)) && mapvals(set.templateCache) == old(mapvals(set.templateCache)))
 //@   ensures {C20} @miss-fills-exactly-key (!old(set.Debug) && r1 == nil && !old(has(set.templateCache, LoaderAbs(set.loaders[0], "", filename)))) ==> (mapdom(set.templateCache) == store(old(mapdom(set.templateCache)), old(LoaderAbs(set.loaders[0], "", filename)), true) && mapvals(set.templateCache) == store(old(mapvals(set.templateCache)), old(LoaderAbs(set.loaders[0], "", filename)), r0))
 //@ func (*TemplateSet).CleanCache
-//@   requires len(set.loaders) > 0
 //@   ensures {C20} @all-emptied len(filenames) == 0 ==> (forall k string :: !has(set.templateCache, k))
 //@   invariant 0 {C20} @only-deletes len(filenames) > 0 ==> set.templateCache == old(set.templateCache) && (forall k string :: has(set.templateCache, k) ==> (old(has(set.templateCache, k)) && set.templateCache[k] == old(set.templateCache[k])))
 //@   invariant 0 {C20} @stays-empty len(filenames) == 0 ==> (forall k string :: !has(set.templateCache, k))
@@ -195,3 +194,28 @@ package pongo2
 //@   at mapupdate requires {C12} @sets-its-name m == ctx.Private && k == node.name
 //@ func (*tagIncludeNode).Execute
 //@   at mapupdate requires {C12} @own-context m == includeCtx && m != ctx.Private && m != ctx.Public
+
+// ---- composition through loaders (C11) ----
+// Error.RawLine is a diagnostic helper outside the engine's compile/execute paths (reads the source line for messages)
+//@ func (*Error).RawLine
+//@   flag fileaccess
+// loaders are consulted only by the set's resolution functions
+//@ callers {C11} TemplateLoader.Get (*TemplateSet).resolveTemplate
+//@ callers {C11} TemplateLoader.Abs (*TemplateSet).resolveFilenameForLoader
+//@ spec LoaderHas(l TemplateLoader, path string) bool
+//@ iface TemplateLoader.Get(recv, path) (r0, r1)
+//@   ensures (r1 == nil) == LoaderHas(recv, path)
+//@ spec ResolvedFor(l TemplateLoader, isStr bool, base string, path string) string = ite(isStr, path, LoaderAbs(l, base, path))
+
+//@ func (*TemplateSet).resolveFilenameForLoader
+//@   ensures {C11} @string-templates-keep-path (tpl != nil && tpl.isTplString) ==> r0 == path
+//@   ensures {C11} @relative-to-referrer !(tpl != nil && tpl.isTplString) ==> r0 == LoaderAbs(loader, ite(tpl == nil, "", tpl.name), path)
+//@ func (*TemplateSet).resolveFilename
+//@   ensures {C11} @first-loader-resolves r0 == ResolvedFor(set.loaders[0], tpl != nil && tpl.isTplString, ite(tpl == nil, "", tpl.name), path)
+
+//@ func (*TemplateSet).resolveTemplate
+//@   invariant 0 {C11} @earlier-loaders-failed forall j int :: 0 <= j && j <= rangeindex ==> !LoaderHas(set.loaders[j], ResolvedFor(set.loaders[j], tpl != nil && tpl.isTplString, ite(tpl == nil, "", tpl.name), path))
+//@   ensures {C11} @found-in-returned-loader err == nil ==> (LoaderHas(loader, name) && name == ResolvedFor(loader, tpl != nil && tpl.isTplString, ite(tpl == nil, "", tpl.name), path))
+//@   ensures {C11} @first-wins err == nil ==> (exists i int :: 0 <= i && i < len(set.loaders) && loader == set.loaders[i] && (forall j int :: 0 <= j && j < i ==> !LoaderHas(set.loaders[j], ResolvedFor(set.loaders[j], tpl != nil && tpl.isTplString, ite(tpl == nil, "", tpl.name), path))))
+//@   ensures {C11} @missing-everywhere-is-an-error (forall j int :: 0 <= j && j < len(set.loaders) ==> !LoaderHas(set.loaders[j], ResolvedFor(set.loaders[j], tpl != nil && tpl.isTplString, ite(tpl == nil, "", tpl.name), path))) ==> err != nil
+//@   ensures {C11} @all-failed-is-the-only-error err != nil ==> (forall j int :: 0 <= j && j < len(set.loaders) ==> !LoaderHas(set.loaders[j], ResolvedFor(set.loaders[j], tpl != nil && tpl.isTplString, ite(tpl == nil, "", tpl.name), path)))
